@@ -1,5 +1,6 @@
 import PhysisModel.Base.ParserA
 import PhysisModel.Model.C18Hdr
+import PhysisModel.Model.Crc
 /-!
 Fault-tracking models (C18 step 2, archive side) of
 
@@ -49,17 +50,18 @@ def indexHeader : P IndexHeader := do
   pure ⟨file, data, folder, ty⟩
 
 /-- `FileEntry`: `Hash` (SplitPath: two u32 / FullPath: one u32, chosen by `pre_assert` on the index
-type), `FileEntryData` (u32), and a u32 of padding for index1 -/
-def fileEntry (indexType : Nat) : P Unit :=
+type), `FileEntryData` (u32), and a u32 of padding for index1; the value is the stored hash
+(`(name, path)` for index1, `(full, 0)` for index2) -/
+def fileEntry (indexType : Nat) : P (UInt32 × UInt32) :=
   if indexType = 0 then do
-    let _ ← P.u32le; let _ ← P.u32le
+    let name ← P.u32le; let path ← P.u32le
     let _ ← P.u32le
     let _ ← P.u32le
-    pure ()
+    pure (name, path)
   else do
+    let full ← P.u32le
     let _ ← P.u32le
-    let _ ← P.u32le
-    pure ()
+    pure (full, 0)
 
 def dataEntry : P Unit := do let _ ← P.bytes 256; pure ()
 
@@ -67,20 +69,26 @@ def folderEntry : P Unit := do
   let _ ← P.u32le; let _ ← P.u32le; let _ ← P.u32le
   P.skip 4
 
-/-- `SqPackIndex::read`; the value is the number of file entries -/
-def indexFile : P Nat := do
+structure Index where
+  indexType : Nat
+  entries : List (UInt32 × UInt32)
+  deriving Inhabited
+
+/-- `SqPackIndex::read` -/
+def indexFile : P Index := do
   let size ← sqpackHeader
   P.seekStart size
   let h ← indexHeader
   P.seekStart h.file.offset
-  let es ← P.count (h.file.size / 16) (fileEntry h.indexType)
+  -- index1 records are 16 bytes, index2 records 8 (C01's fix 1708419)
+  let es ← P.count (h.file.size / (if h.indexType = 0 then 16 else 8)) (fileEntry h.indexType)
   P.seekStart h.data.offset
   let _ ← P.count (h.data.size / 256) dataEntry
   P.seekStart h.folder.offset
   let _ ← P.count (h.folder.size / 16) folderEntry
-  pure es.length
+  pure ⟨h.indexType, es⟩
 
-def index (w : Bytes) : Res Nat := P.run indexFile w
+def index (w : Bytes) : Res Index := P.run indexFile w
 
 /-- position of the last `/` (0x2F) -/
 def rfindSlash (l : Bytes) : Option Nat :=
@@ -101,6 +109,18 @@ def hashSplit (l : Bytes) : Res (Bytes × Bytes) :=
     let name ← sliceF file 1 file.length
     pure (dir, name)
   | none => .ok ([], l)
+
+/-- `SqPackIndex::exists` (= `find_entry(..).is_some()`) for an ASCII path: `calculate_hash` on the
+lower-cased path, then a scan of the entries -/
+def existsAscii (ix : Index) (path : Bytes) : Res Bool :=
+  let l := path.map asciiLower
+  if ix.indexType = 0 then do
+    let (dir, name) ← hashSplit l
+    let h : UInt32 × UInt32 := (Crc.checksum name, Crc.checksum dir)
+    pure (ix.entries.any (fun e => e == h))
+  else
+    let h : UInt32 × UInt32 := (Crc.checksum l, 0)
+    .ok (ix.entries.any (fun e => e == h))
 
 /-- pinned commit: `panic!("This is unexpected…")` -/
 def hashSplitUnfixed (l : Bytes) : Res (Bytes × Bytes) :=
